@@ -686,9 +686,29 @@ pub fn run(family: Family, mut ch: Choices) -> RunOut {
 
     // ---- fragmentation independence
     let n_frag = 2 + ch.choose(3);
-    for fi in 0..n_frag {
-        let cuts = random_cuts(&mut ch, stream.len());
-        sync_log(&ch);
+    let mut cut_sets: Vec<Vec<usize>> = (0..n_frag).map(|_| random_cuts(&mut ch, stream.len())).collect();
+    // short streams, one run in six: EVERY way of cutting the stream into two reads, and (up to 40 bytes)
+    // into three reads
+    let enumerate_cuts = stream.len() >= 2 && stream.len() <= 160 && ch.chance(1, 6);
+    if enumerate_cuts {
+        for a in 1..stream.len() {
+            cut_sets.push(vec![a]);
+        }
+        if stream.len() <= 40 {
+            for a in 1..stream.len() {
+                for b in (a + 1)..stream.len() {
+                    cut_sets.push(vec![a, b]);
+                }
+            }
+        }
+        cx.note(format!("all cuts into two{} reads enumerated: {} fragmentations", if stream.len() <= 40 { " and three" } else { "" }, cut_sets.len() - n_frag as usize));
+    }
+    sync_log(&ch);
+    for (fi, cuts) in cut_sets.iter().enumerate() {
+        if !cx.viol.is_empty() && fi >= n_frag as usize {
+            break;
+        }
+        let cuts = cuts.clone();
         let f = run_feed(&cuts);
         let fl = logical(&f);
         let prop: &'static str = if family == Family::C02 { "C02" } else { "C10" };
@@ -769,7 +789,10 @@ pub fn run(family: Family, mut ch: Choices) -> RunOut {
     sig.write_u64(stream.len() as u64);
     let mut stats = Stats::default();
     stats.steps = cx.seq;
-    *stats.faults.entry("frag").or_insert(0) += u64::from(n_frag);
+    *stats.faults.entry("frag").or_insert(0) += cut_sets.len() as u64;
+    if enumerate_cuts {
+        *stats.probes.entry("all-cuts-enumerated").or_insert(0) += 1;
+    }
     if mutated.is_some() {
         *stats.faults.entry("mutation").or_insert(0) += 1;
     }
